@@ -101,7 +101,7 @@ pub fn create_ts_authenticate(nego: Vec<u8>, pub_key_auth: Vec<u8>) -> Vec<u8> {
 }
 
 pub fn read_public_certificate(stream: &[u8]) -> RdpResult<X509Certificate> {
-    let res = parse_x509_der(stream).unwrap();
+    let res = parse_x509_der(stream).map_err(|_| Error::RdpError(RdpError::new(RdpErrorKind::InvalidData, "Unable to parse the peer certificate")))?;
     Ok(res.1)
 }
 
